@@ -1811,8 +1811,11 @@ class Engine:
             return z3.Not(v.isnone)
         if isinstance(v, Opaque) and v.term.sort() == TStr.sort:
             return v.term != TStr.lit('')
-        if isinstance(v, (Obj, Func, Method)):
+        if isinstance(v, (Obj, Func)):
             return True
+        if isinstance(v, Method):
+            # an attribute the contract does not declare: it may be data of any value, not necessarily a (truthy) bound method
+            raise Unsupported('truth value of the undeclared attribute %s' % v.name)
         if isinstance(v, (tuple, list)):
             return len(v) > 0
         if isinstance(v, Ref):
